@@ -194,6 +194,90 @@ theorem fetch_fixed : fetchFixed = true := by decide
 failed outcome, and failed = non-kafka there) -/
 theorem close_rules_hold : Gen.ConnLegacy.doClosesNonKafka = true ∧ Gen.ConnLegacy.batchClosesNonKafka = true := by decide
 
+/-! ### any number of operations in a row
+
+The one-step theorems compose: over a stream of honestly framed responses, a whole sequence of operations on one Conn
+gives, operation by operation, exactly what each would give alone on a fresh connection holding only its own frame —
+up to the first one that fails (a framing error or a transport error in its own frame); from there on every operation
+fails with "use of closed connection".  This is the property as the title states it: usable after broker-reported
+errors, never reused misaligned. -/
+
+/-- one exchange of a sequence: the operation, its version, the 8-byte header and the body the broker sends for it -/
+structure Exch where
+  o : OpSpec
+  v : Nat
+  hdr : Bytes
+  body : Bytes
+
+/-- honest framing for correlation id `id`, operation inside the main theorems (all of the table: `covered_ops_good`) -/
+def Exch.WF (e : Exch) (id : Int) : Prop :=
+  e.hdr.length = 8 ∧ beInt (e.hdr.take 4) = e.body.length + 4 ∧ beInt (e.hdr.drop 4) = id ∧
+  e.o.good e.v = true ∧ e.o.closeOnErr = true
+
+def seqWF : List Exch → Int → Prop
+  | [], _ => True
+  | e :: r, id => e.WF id ∧ seqWF r (id + 1)
+
+def streamOf : List Exch → Bytes
+  | [] => []
+  | e :: r => e.hdr ++ e.body ++ streamOf r
+
+def runOps (topic : Bytes) : List Exch → Conn → List Outcome × Conn
+  | [], c => ([], c)
+  | e :: r, c => ((connDo e.o e.v topic c).1 :: (runOps topic r (connDo e.o e.v topic c).2).1,
+                  (runOps topic r (connDo e.o e.v topic c).2).2)
+
+def closedOutcome : Outcome := .fail (.other "use of closed connection")
+
+/-- what each operation gives ALONE, on a fresh connection that holds its own frame and nothing else; after the first
+failure: closed -/
+def expectedOuts (topic : Bytes) : List Exch → List Outcome
+  | [] => []
+  | e :: r =>
+    let out := (opRead e.o e.v topic ⟨e.body, e.body.length⟩).1
+    if out.isFail then out :: r.map (fun _ => closedOutcome) else out :: expectedOuts topic r
+
+theorem runOps_closed (topic : Bytes) (es : List Exch) (c : Conn) (h : c.closed = true) :
+    runOps topic es c = (es.map (fun _ => closedOutcome), c) := by
+  induction es with
+  | nil => rfl
+  | cons e r ih =>
+    have h1 : connDo e.o e.v topic c = (closedOutcome, c) := by unfold connDo; simp [h, closedOutcome]
+    simp only [runOps, h1, ih, List.map_cons]
+
+theorem sequence_aligned (topic : Bytes) (es : List Exch) (c : Conn) (rest : Bytes)
+    (hopen : c.closed = false) (hwf : seqWF es c.nextId) (hs : c.stream = streamOf es ++ rest) :
+    (runOps topic es c).1 = expectedOuts topic es ∧
+    ((expectedOuts topic es).all (fun o => !o.isFail) = true →
+      (runOps topic es c).2 = { stream := rest, nextId := c.nextId + es.length, closed := false }) := by
+  induction es generalizing c with
+  | nil =>
+    simp only [streamOf, List.nil_append] at hs
+    refine ⟨rfl, fun _ => ?_⟩
+    cases c; simp_all [runOps]
+  | cons e r ih =>
+    obtain ⟨⟨hlen, hsize, hid, hgood, hclose⟩, hr⟩ := hwf
+    have hs' : c.stream = e.hdr ++ e.body ++ (streamOf r ++ rest) := by
+      rw [hs]; simp [streamOf, List.append_assoc]
+    have hloc := result_depends_only_on_frame e.o e.v topic c e.hdr e.body (streamOf r ++ rest) hopen hs' hlen hsize hid
+    have hac := aligned_or_closed e.o e.v topic c e.hdr e.body (streamOf r ++ rest) hgood hclose hopen hs' hlen hsize hid
+    simp only [runOps, expectedOuts]
+    rw [← hloc.1]
+    rcases hac with ⟨hnf, hc'⟩ | ⟨hf, hcl⟩
+    · -- aligned: the rest of the sequence runs from a Conn positioned at the next frame
+      have ih' := ih (connDo e.o e.v topic c).2 (by rw [hc']) (by rw [hc']; exact hr) (by rw [hc'])
+      simp only [hnf, Bool.false_eq_true, ↓reduceIte]
+      refine ⟨by rw [ih'.1], fun hall => ?_⟩
+      simp only [List.all_cons, Bool.and_eq_true] at hall
+      rw [ih'.2 hall.2, hc']
+      simp only [List.length_cons, Conn.mk.injEq, true_and, and_true]
+      omega
+    · -- failed: closed, every later operation fails
+      simp only [hf, ↓reduceIte]
+      rw [runOps_closed topic r _ hcl]
+      refine ⟨rfl, fun hall => ?_⟩
+      simp [hf] at hall
+
 /-! ### nothing else reads the Conn's buffer
 
 The theorems speak about the operations of the table, the framing code (`waitResponse`, `do`, `ApiVersions`) and the
@@ -400,6 +484,25 @@ theorem d2_fixed_example :
       some (.kafka 6, ⟨d2Next, 2, false⟩) ∧
     (connDo (simpleOp "heartbeat" Gen.ConnLegacy.heartbeatResponseV0) 0 [116] ⟨d2Next, 2, false⟩).1 = .ok := by
   decide
+
+/-- non-vacuity on the regenerated table: heartbeat (ok), produce v2 answered with NotLeaderForPartition (kafka 6, the
+D2 frame), heartbeat again, then a heartbeat whose frame has a byte too many (fails, closes), then one more: the run
+on one Conn is `[ok, kafka 6, ok, fail, closed]`, i.e. `expectedOuts`; the hypotheses of `sequence_aligned` hold for
+the first three (honest frames, operations of the table). -/
+def exampleSeq (hb pr : OpSpec) : List Exch :=
+  [⟨hb, 0, [0,0,0,6, 0,0,0,1], [0,0]⟩, ⟨pr, 2, [0,0,0,41, 0,0,0,2], d2Body⟩, ⟨hb, 0, [0,0,0,6, 0,0,0,3], [0,0]⟩,
+   ⟨hb, 0, [0,0,0,7, 0,0,0,4], [0,0,9]⟩, ⟨hb, 0, [0,0,0,6, 0,0,0,5], [0,0]⟩]
+
+def exampleHolds (hb pr : OpSpec) : Bool :=
+  let es := exampleSeq hb pr
+  (runOps [116] es ⟨streamOf es, 1, false⟩).1 == expectedOuts [116] es &&
+  (expectedOuts [116] es).map Outcome.isFail == [false, false, false, true, true] &&
+  expectedOuts [116] (es.take 3) == [.ok, .kafka 6, .ok] &&
+  (runOps [116] (es.take 3) ⟨streamOf es, 1, false⟩).2.nextId == 4
+
+theorem sequence_example :
+    ((specOf "heartbeat").bind fun hb => (specOf "produce").map fun pr => exampleHolds hb pr) = some true := by decide
+
 
 example : d2Body.length = 37 ∧ beInt ((d2Frame 1).take 4) = d2Body.length + 4 ∧ beInt (((d2Frame 1).take 8).drop 4) = 1 := by decide
 
